@@ -120,6 +120,14 @@ CLAIMED = {
         "name, that internal mode only flips is_internal, and that settings are validated before they are used.",
         "Trusted: dataclasses.replace semantics.",
         "DESIGN.md 4/C16"),
+    "C17": (
+        "ast pattern rules on the selection code + agreement of every hand-written mixin block with MIXINS_MAP and the services' descriptors",
+        "Decides the per-API selection flags, selector-based method selection, exact-name IAM overrides, that MIXINS_MAP equals the 10 "
+        "methods and types of the three mixin services (descriptor data from googleapis-common-protos), and that in the sync client, "
+        "asyncio client, gRPC / asyncio stubs and base transport every method has exactly one block under its own guard with the "
+        "canonical path, request type, (de)serializers, routing field and lookup key; REST mixin loops; add-iam-methods exclusivity.",
+        "Trusted: googleapis-common-protos descriptors.",
+        "DESIGN.md 4/C17"),
     "C18": (
         "branch-wise ast pattern rules on the validator + shape/dominance rules on the inlined population block",
         "Decides that each AIP-4235 violation (duplicate, unknown, streaming, nested/missing, non-string, required, non-UUID4) has "
